@@ -220,12 +220,17 @@ pub const RAW_SETS: &[&[&str]] = &[
     &["/xy{0,2}z", "/w"],
     &["/en/home|/fr/accueil", "/de"],
     &["/k(a)?b", "/k2"],
+    // literal prefixes whose letters have non-ASCII case variants (Unicode simple case folding under ignore_case)
+    &["/\u{fc}n\u{ef}/a1", "/\u{fc}n\u{ef}/b2"],
+    &["shop1", "shop2"],
+    &["m\u{fc}nchen42.example.com", "m\u{fc}nchen43.example.com"],
 ];
 
 pub const RAW_HAYSTACKS: &[&str] = &[
     "/n/aax", "/n/aaay", "/n/ok", "/abx", "/ady", "/acx", "/a/plain", "/z/q", "/xac", "/xcd", "/xbc", "/p/aab", "/p/ac", "/p/a", "/q/", "/q/aaa", "/q/b", "/q/ab", "/q/aac", "/r/12z",
     "/r/1234y", "/r/123y", "/s/a", "b", "c", "/s/", "/u/AB", "/u/ac", "/v/x{", "/v/x", "/v/x{1", "/w/k/a", "/w/k/b", "/y/Ax", "/y/ax", "", "/", "//", "/nope",
     "/color/x", "/colour/x", "/ac", "/abc", "/abbc", "/xz", "/xyz", "/xyyz", "/fr/accueil", "/en/home", "/de", "/kb", "/kab", "/z", "/w",
+    "/\u{dc}N\u{cf}/a1", "/\u{dc}n\u{ef}/b2", "/\u{fc}n\u{ef}/a1", "\u{17f}hop1", "SHOP2", "shop1", "M\u{dc}NCHEN42.example.com", "m\u{fc}nchen43.EXAMPLE.com",
 ];
 
 /// transparency only: the cached twin must answer exactly like the never-cached one (same values, same len)
@@ -563,7 +568,7 @@ pub fn run(ctx: &Ctx, _args: &Args) -> i32 {
     finish(
         ctx,
         report,
-        "twin routers driven by the C02 history generator (+ extra cache(n) calls, n in {None,0,1,2,3,5,8,10^6}) compared after every op on match ids, Route::capture of every matched route and the canonicalised serialisation of trace_request; trees: exhaustive (limit, level) and call pairs on small sets of the C08 catalogue vs uncached twin and linear scan, plus 18 raw pattern sets beyond the rule shape (top-level classes, counted repetitions, alternations, uncompilable patterns; transparency only); thread stress: 4 matching threads on an Arc<Router> while clones sharing the Arc<Route>s are cached. non-trivial = history / call sequence during which some but possibly not all regexes were compiled (cache state read through the hooks)",
+        "twin routers driven by the C02 history generator (+ extra cache(n) calls, n in {None,0,1,2,3,5,8,10^6}) compared after every op on match ids, Route::capture of every matched route and the canonicalised serialisation of trace_request; trees: exhaustive (limit, level) and call pairs on small sets of the C08 catalogue vs uncached twin and linear scan, plus 21 raw pattern sets beyond the rule shape (top-level classes, counted repetitions, alternations, uncompilable patterns; transparency only); thread stress: 4 matching threads on an Arc<Router> while clones sharing the Arc<Route>s are cached. non-trivial = history / call sequence during which some but possibly not all regexes were compiled (cache state read through the hooks)",
         &["the twin is the same library code without cache calls (metamorphic relation)", "regex crate for the linear scan of the tree part"],
         started,
         100,
